@@ -247,6 +247,8 @@ var c09Mem = []string{
 	`ba9 = [7] * 400000; len(ba9 * %d)`,
 	`cyc = [1, 2, 3, 4, 5, 6, 7, 8, 9, 10 + %d]; cyc[0] = cyc; len(str(cyc))`,
 	`cyc = {1: 1, 2: 2, 3: 3, 4: 4, 5: 5, 6: 6 + %d}; cyc[1] = cyc; len(str(cyc))`,
+	`len(join(["ab"] * 200000, "x" * %d))`,        // the separator, not the elements, makes the result large
+	`len(join(["ab"] * %d, "0123456789" * 1000))`, // ... and many elements with a 10 KB separator
 } // keep the length odd: memory runs are those with run%3 == 2 and run%12 != 11
 
 // bytes needed per unit of the reported length, for templates whose result is the size of what was built
@@ -254,6 +256,7 @@ var c09Unit = map[string]int64{
 	`len("abcdefgh" * `: 1, `len([1, 2, 3] * `: 16, `len(0:`: 16, `len((0:1000) * `: 16, `len(join([1, 2, 3] * `: 1,
 	`len(split("a," * `: 16, `len(runes("ab" * `: 16, `len(str("q" * `: 1,
 	`bs9 = "x" * 4000000; len(bs9 * `: 1, `ba9 = [7] * 400000; len(ba9 * `: 16,
+	`len(join(["ab"] * 200000, "x" * `: 1, `len(join(["ab"] * `: 1,
 }
 
 var c09Operands = []int64{3_000_000, 6_000_000, 20_000_000, 0, 1, 7, 40, 62, 63, 64, 1000, 70000, 1 << 20, 1 << 24, 1<<31 - 1, 1 << 31, 1<<31 + 1, 1 << 32, 1 << 40, 1 << 62, 1<<62 + 1, 1<<63 - 1, 3074457345618258603, 6148914691236517206}
